@@ -303,7 +303,17 @@ def opt_tokens(rng, key, value):
         return ['--%s=%s' % (key, value)]
     return ['--' + key, value]
 
+TWINS = [('Util', 'util'), ('cam', 'Cam'), ('Cam', 'CAM'), ('a', 'A'), ('VideoIn', 'videoin'), ('x-y', 'X-Y'), ('x-y', 'x_y')]
+
 def gen_random(rng):
+    if rng.random() < 0.02:
+        # two producers whose ids differ only in letter case (or in '-' / '_'), both left to the CLI to allocate outputs for,
+        # and a consumer that names both: two filters, two endpoints, each source bound by exactly its producer
+        x, y = rng.choice(TWINS)
+        cls = rng.choice(['Util', 'VideoIn'])
+        t = [cls] + (['--id', x] if x != cls else []) + ['-', rng.choice(['Util', 'VideoIn']), '--id', y,
+             '-', 'Webvis', '--sources', '%s%s,%s' % (x, rng.choice(['', ';main', '?']), y)]
+        return dict(tokens=t, ipc=rng.random() < 0.7)
     n = rng.choice([1, 2, 2, 3, 3, 3, 4, 4, 5, 6])
     classes = [rng.choice(BUILTINS if rng.random() < 0.8 else ['Util', 'VideoIn']) for _ in range(n)]
     names = [cls_info(c)[0] for c in classes]
